@@ -48,6 +48,9 @@ private theorem callees_list (items : List PExpr) :
 private theorem expr_fn (f : String) (args : List STerm) :
     exprOfSTerm (.fn f args) = .call "functor" [.str f, .list (args.map exprOfSTerm)] := by
   simp [exprOfSTerm, List.map_attach_eq_pmap, List.pmap_eq_map]
+private theorem expr_numfn (f : String) (args : List STerm) :
+    exprOfSTerm (.numfn f args) = .call "functor" [.str f, .list (args.map exprOfSTerm)] := by
+  simp [exprOfSTerm, List.map_attach_eq_pmap, List.pmap_eq_map]
 private theorem expr_list (i : STerm) (is : List STerm) :
     exprOfSTerm (.list (i :: is)) = .call "makelist" [.list ((i :: is).map exprOfSTerm)] := by
   simp [exprOfSTerm, List.map_attach_eq_pmap, List.pmap_eq_map]
@@ -63,6 +66,15 @@ theorem term_expr_callees (t : STerm) : ∀ c ∈ PExpr.callees (exprOfSTerm t),
   | fn f args ih =>
     intro c hc
     rw [expr_fn, callees_call] at hc
+    simp only [List.map_cons, List.map_nil, List.flatten_cons, List.flatten_nil, List.append_nil, callees_list,
+      List.mem_cons, List.mem_append, List.mem_flatten, List.mem_map, PExpr.callees, List.not_mem_nil, false_or] at hc
+    rcases hc with h | h
+    · simp [h, termCallees]
+    · obtain ⟨l, ⟨e, ⟨a, ha, rfl⟩, rfl⟩, hcl⟩ := h
+      exact ih a ha c hcl
+  | numfn f args ih =>
+    intro c hc
+    rw [expr_numfn, callees_call] at hc
     simp only [List.map_cons, List.map_nil, List.flatten_cons, List.flatten_nil, List.append_nil, callees_list,
       List.mem_cons, List.mem_append, List.mem_flatten, List.mem_map, PExpr.callees, List.not_mem_nil, false_or] at hc
     rcases hc with h | h
